@@ -114,6 +114,21 @@ def run_case(case):
         B, C, O = case["B"], case["C"], case["O"]
         A = rng.integers(-3, 4, size=(B, C) + sp + (d,) * k)
         F = rng.integers(-3, 4, size=(O, C) + fs + (d,) * kf)
+    # call history: a "twin" option set with identical array shapes but other torus flags (or another filter dilation) is
+    # evaluated first, so that anything memoised per shape but depending on the options shows up in the case itself
+    twin = dict(opts)
+    t0 = opts["is_torus"]
+    twin["is_torus"] = [not b for b in t0] if isinstance(t0, list) else (not t0)
+    if opts["pad_kind"] not in ("TORUS", "None"):
+        r0 = opts["rhs"]
+        twin["rhs"] = [v + 1 for v in r0] if isinstance(r0, list) else r0 + 1
+    tkw, trkw = convgen.kwargs_for_lib(twin, d), convgen.kwargs_for_ref(twin, d)
+    if all(n > 0 for n in ref.out_size(d, sp, fs, trkw["is_torus"], trkw["stride"], trkw["padding"], trkw["lhs"], trkw["rhs"])) and not is_risky(dict(case, opts=twin)):
+        texp = ref.convolve(d, A, F, **trkw)
+        tgot = _lib_conv(d, A, F, tkw)
+        labels.append("twin_evaluated")
+        if not exact_equal(tgot, texp):
+            return result(viol("C04/convolve/definition", f"(twin option set) {twin} k={k} kf={kf}: {first_diff(tgot, texp)}"), True, key, labels)
     exp = ref.convolve(d, A, F, **rkw)
     assert_exact_bound(exp)
     osz = ref.out_size(d, sp, fs, rkw["is_torus"], rkw["stride"], rkw["padding"], rkw["lhs"], rkw["rhs"])
